@@ -748,7 +748,34 @@ pub fn run(cfg: &Cfg) -> i32 {
     let mut refused_n = 0u64;
     for ci in &sets {
         let caps = Caps::from_index(*ci);
-        let uris = caps.uris();
+        let mut uris = caps.uris();
+        // large devices advertise one capability per YANG module they implement, hundreds of
+        // them, in any position relative to the standard ones: what a request may use does not
+        // depend on how many others there are
+        if ci % 7 == 3 {
+            let n = [100usize, 123, 124, 127, 128, 129, 300, 1000][(*ci as usize / 7) % 8];
+            let mut filler: Vec<String> = (0..n).map(|k| format!("http://example.com/yang/module-{k}?module=module-{k}&revision=2024-01-{:02}", 1 + k % 28)).collect();
+            let base = uris.remove(0);
+            match (*ci / 56) % 3 {
+                0 => {
+                    // base first, then the modules, the standard capabilities last
+                    filler.insert(0, base);
+                    filler.extend(uris);
+                    uris = filler;
+                }
+                1 => {
+                    // everything standard last, the base capability included
+                    filler.push(base);
+                    filler.extend(uris);
+                    uris = filler;
+                }
+                _ => {
+                    uris.insert(0, base);
+                    uris.extend(filler);
+                }
+            }
+            rep.count("capability_sets_in_a_large_hello");
+        }
         let uri_refs: Vec<&str> = uris.iter().map(String::as_str).collect();
         let mut s = sess::establish_ok(&uri_refs);
         rep.count("capability_sets");
